@@ -67,6 +67,20 @@ func init() {
 	}
 }
 
+var c17HighCache []int
+
+// c17HighOps: the operations whose range reaches above U+00FF (they populate the interval list)
+func c17HighOps() []int {
+	if c17HighCache == nil {
+		for i, o := range c17Ops {
+			if o.kind == 0 && o.end >= 0x100 && o.start >= 0xFF {
+				c17HighCache = append(c17HighCache, i)
+			}
+		}
+	}
+	return c17HighCache
+}
+
 func c17RefOf(i int) interface{} {
 	switch i {
 	case 0:
@@ -332,6 +346,30 @@ func init() {
 						}
 					},
 					Repr: func(i int64) string { return "[" + c17HistStr(seqByIndex(k, i)) + "]" }},
+				{Name: "high-range-triples", N: int64(len(c17HighOps())) * int64(len(c17HighOps())) * int64(len(c17HighOps())), Run: func(c *fw.Ctx, i int64) {
+						ho := c17HighOps()
+						n := int64(len(ho))
+						c17CheckHistory(c, []int{ho[i/(n*n)], ho[i/n%n], ho[i%n]})
+						c.Nontrivial()
+					},
+					Repr: func(i int64) string {
+						ho := c17HighOps()
+						n := int64(len(ho))
+						return "[" + c17HistStr([]int{ho[i/(n*n)], ho[i/n%n], ho[i%n]}) + "]"
+					}},
+				{Name: "pumped-histories", N: (countStrings(k, 2) - 1) * 6, Run: func(c *fw.Ctx, i int64) {
+						base := seqByIndex(k, 1+i/6)
+						n := []int{3, 8, 9, 17, 33, 65}[i%6]
+						h := []int{}
+						for len(h) < n*len(base) {
+							h = append(h, base...)
+						}
+						c17CheckHistory(c, h)
+						c.Nontrivial()
+					},
+					Repr: func(i int64) string {
+						return fmt.Sprintf("[%s] repeated %d times", c17HistStr(seqByIndex(k, 1+i/6)), []int{3, 8, 9, 17, 33, 65}[i%6])
+					}},
 				{Name: "bfs", N: 1, Timeout: 600e9,
 					Run:  func(c *fw.Ctx, i int64) { c17BFS(c, bfsDepth) },
 					Repr: func(i int64) string { return "probe-vector BFS" }},
